@@ -38,3 +38,39 @@ where
         Err(TestError::Abort(reason)) => panic!("proptest aborted (harness defect, not a violation): {}", reason),
     }
 }
+
+/// Same contract as `run`, spread over several threads: shard k runs its own TestRunner seeded
+/// with mix(seed, stream, k) for cases/shards cases. Deterministic: every shard runs to its own
+/// end (or its own first failure, shrunk), and the failure of the lowest failing shard is returned.
+pub fn run_sharded<S: Strategy>(
+    seed: u64,
+    stream: u64,
+    cases: u32,
+    make: &(dyn Fn() -> S + Sync),
+    test: &(dyn Fn(S::Value) -> Result<(), String> + Sync),
+) -> Result<(), Failure<S::Value>>
+where
+    S::Value: Clone + std::fmt::Debug + Send,
+{
+    let shards = shard_count();
+    let per = (cases as usize + shards - 1) / shards;
+    let results: Vec<Result<(), Failure<S::Value>>> = std::thread::scope(|sc| {
+        let handles: Vec<_> = (0..shards)
+            .map(|k| {
+                sc.spawn(move || {
+                    let strat = make();
+                    run(super::mix2(seed, 0x5AAD_0000 + k as u64), stream, per as u32, &strat, |v| test(v))
+                })
+            })
+            .collect();
+        handles.into_iter().map(|h| h.join().expect("shard thread panicked (harness defect)")).collect()
+    });
+    for r in results {
+        r?;
+    }
+    Ok(())
+}
+
+pub fn shard_count() -> usize {
+    8
+}
